@@ -182,13 +182,14 @@ Section GrammarP.
   Qed.
 
   Lemma inv_p_path sc st p st' :
-    p_path sc st = POk p st' -> exists x, toks st = x ++ toks st' /\ G_path x (toks st') p /\ unx st' = unx st.
+    p_path sc st = POk p st' -> exists x, toks st = x ++ toks st' /\ G_path x (toks st') p /\ (unx st' = None -> unx st = None).
   Proof.
     unfold Parser.p_path. destruct (parse_path (toks st)) as [r0|] eqn:Hr; [|discriminate].
     intros H; inversion H; subst; cbn. exists (firstn (po_n r0) (toks st)).
     pose proof (firstn_skipn (po_n r0) (toks st)) as FS. repeat split.
     - symmetry; exact FS.
     - exists r0. rewrite FS. repeat split; try reflexivity. exact Hr.
+    - intros Hn. apply first_wins_none in Hn as [Hn _]. exact Hn.
   Qed.
 
   Lemma inv_p_closure sc st c st' :
@@ -481,7 +482,7 @@ Section GrammarP.
                      (exists path ptoks, fst hd = Some path /\ toks s1 = ptoks ++ toks s3 /\ G_path ptoks (toks s3) path))).
       { destruct (toks s1) as [|t r] eqn:Ht1.
         - apply bind_inv in E3 as (path & s5 & E5 & E3). apply inv_ret in E3 as [-> ->].
-          apply inv_p_path in E5 as (x & T & G & U). split; [congruence|]. right. exists path, x. rewrite <- Ht1. auto.
+          apply inv_p_path in E5 as (x & T & G & U). split; [apply U; congruence|]. right. exists path, x. rewrite <- Ht1. auto.
         - destruct t as [s usp| | |].
           + destruct (String.eqb s "_") eqn:Hs.
             * apply String.eqb_eq in Hs. subst s.
@@ -489,13 +490,13 @@ Section GrammarP.
               apply inv_advance in E5 as [T5 U5]. rewrite Ht1 in T5. cbn in T5.
               split; [congruence|]. left. exists usp. split; [reflexivity|]. congruence.
             * apply bind_inv in E3 as (path & s5 & E5 & E3). apply inv_ret in E3 as [-> ->].
-              apply inv_p_path in E5 as (x & T & G & U). split; [congruence|]. right. exists path, x. rewrite <- Ht1. auto.
+              apply inv_p_path in E5 as (x & T & G & U). split; [apply U; congruence|]. right. exists path, x. rewrite <- Ht1. auto.
           + apply bind_inv in E3 as (path & s5 & E5 & E3). apply inv_ret in E3 as [-> ->].
-            apply inv_p_path in E5 as (x & T & G & U). split; [congruence|]. right. exists path, x. rewrite <- Ht1. auto.
+            apply inv_p_path in E5 as (x & T & G & U). split; [apply U; congruence|]. right. exists path, x. rewrite <- Ht1. auto.
           + apply bind_inv in E3 as (path & s5 & E5 & E3). apply inv_ret in E3 as [-> ->].
-            apply inv_p_path in E5 as (x & T & G & U). split; [congruence|]. right. exists path, x. rewrite <- Ht1. auto.
+            apply inv_p_path in E5 as (x & T & G & U). split; [apply U; congruence|]. right. exists path, x. rewrite <- Ht1. auto.
           + apply bind_inv in E3 as (path & s5 & E5 & E3). apply inv_ret in E3 as [-> ->].
-            apply inv_p_path in E5 as (x & T & G & U). split; [congruence|]. right. exists path, x. rewrite <- Ht1. auto. }
+            apply inv_p_path in E5 as (x & T & G & U). split; [apply U; congruence|]. right. exists path, x. rewrite <- Ht1. auto. }
       destruct Hhd as [Un1 Hhd]. split; [congruence|].
       destruct Hhd as [(usp & Hh & Th)|(path & ptoks & Hh & Th & Gp)].
       + exists [TTIdent "_" usp; TTGroup DBrace sp spo spc inner]. rewrite <- T1, Th, T4. split; [reflexivity|].
@@ -551,10 +552,10 @@ Section GrammarP.
         apply inv_in_group in E5 as (sp & spo & spc & inner & stb & res & T5 & -> & Eb & Ub).
         assert (Un3 : unx s5 = None) by congruence.
         destruct (Ub Un3) as [Tb Unb]. destruct (Ielems 0%N _ _ _ _ Eb Unb Tb) as [Un1 Ge]. cbn [toks unx] in Un1, Ge.
-        split; [congruence|]. exists (xp ++ [TTGroup DParen sp spo spc inner]). rewrite T4.
+        split; [apply Up; congruence|]. exists (xp ++ [TTGroup DParen sp spo spc inner]). rewrite T4.
         split; [rewrite Tp, T5, <- app_assoc; reflexivity|]. cbn [snd].
         apply G_variant_pat; [rewrite T5 in Gp; exact Gp|exact Ge].
-      + apply inv_ret in E3 as [-> ->]. split; [congruence|]. exists xp. rewrite T4. split; [exact Tp|].
+      + apply inv_ret in E3 as [-> ->]. split; [apply Up; congruence|]. exists xp. rewrite T4. split; [exact Tp|].
         apply G_unit_pat. exact Gp.
     - (* p_tuple *)
       intros sc st p st' H Hn. cbn [Parser.p_tuple] in H.
